@@ -23,10 +23,10 @@ type prop struct {
 }
 
 var e1Components = map[string]string{
-	"consensus validation/application/revert/accumulator/difficulty": "real (go.sia.tech/core/consensus, public API)",
-	"types: codecs, IDs, sighashes, policies, currency":               "real (go.sia.tech/core/types)",
+	"consensus validation/application/revert/accumulator/difficulty":   "real (go.sia.tech/core/consensus, public API)",
+	"types: codecs, IDs, sighashes, policies, currency":                "real (go.sia.tech/core/types)",
 	"chain manager, fork choice, reorg driver, element store, mempool": "stub written for the harness",
-	"miners, wallets, renters, hosts, light clients, adversary":       "stub actors calling the real library",
+	"miners, wallets, renters, hosts, light clients, adversary":        "stub actors calling the real library",
 	"network, clocks, disks":                                           "simulated, owned by the seeded scheduler",
 	"reference ledger, naive Merkle forest, RefWire, RefPolicy":        "independent models in /verif/ref (x/crypto blake2b, math/big)",
 	"ed25519, blake2b, encoding/json, Go runtime":                      "trusted",
@@ -77,17 +77,17 @@ var props = map[string]prop{
 	"C18": e1prop("C18", 240, 6000, e1Case+"every v2 block put on the wire goes through the multiproof codec and must come back with bit-identical proofs, ID and commitment; at sampled reachable states blocks with many parent kinds (pool transactions, revisions, resolutions with shared proof-index elements, ephemeral parents) are outlined with a tape-chosen withheld subset (none / some / all), sent through the real outline codec, and completed from partial, superset and permuted candidate pools: outline ID = block ID, Missing() exact after each step, completed block byte-identical to the original.",
 		"probe.wire.multiproof", "probe.O1-outline", "reach.outline-all-withheld", "reach.outline-two-step-completion", "reach.multiproof-duplicate-leaf"),
 	"C13": {
-		Parts: []part{{Engine: "E1h", Pkg: "world", Profile: "C13", QuickRuns: 2400, QuickBudgetS: 40, ThoroughRuns: 40000, ThoroughBudgetS: 900}},
-		Rule:  "one case = one seeded header chain of 300-3000 blocks under swarm-drawn network parameters (Oak before/at/after multiples of 500, fix height, ASIC reset values, nonce factor, v2 allow/require/final-cut heights incl. v2 from height 1, block interval 10 ms ... 1 h, initial difficulty 1-256) and one of five timestamp behaviours (honest, constant = always the median, decreasing-within-rule, far future, mixed); every block is applied both as header only and as full block. Per header: no panic; retarget inside the era's clamp in exact rationals; total work monotone (strict from v2); target/difficulty floored inverses; header-only state = full state on all proof-of-work fields; ValidateHeader accepts the honest header and refuses each single defect (parent, median-1s, nonce factor, work) while accepting the median itself; SufficientlyHeavierThan asymmetric over sampled state pairs. Non-trivial = more than 50 headers applied; distinct = distinct event-log hashes.",
-		Assumptions: []string{"proof of work is really performed, so runs stop when difficulty exceeds 4096", "targets of 2^255 and above saturate to the maximum target in the library (difficulty < 2); the clamp oracle accepts that saturation (DESIGN Appendix F)", "sampling, not enumeration"},
-		Components:  e1Components,
+		Parts:          []part{{Engine: "E1h", Pkg: "world", Profile: "C13", QuickRuns: 2400, QuickBudgetS: 40, ThoroughRuns: 40000, ThoroughBudgetS: 900}},
+		Rule:           "one case = one seeded header chain of 300-3000 blocks under swarm-drawn network parameters (Oak before/at/after multiples of 500, fix height, ASIC reset values, nonce factor, v2 allow/require/final-cut heights incl. v2 from height 1, block interval 10 ms ... 1 h, initial difficulty 1-256) and one of five timestamp behaviours (honest, constant = always the median, decreasing-within-rule, far future, mixed); every block is applied both as header only and as full block. Per header: no panic; retarget inside the era's clamp in exact rationals; total work monotone (strict from v2); target/difficulty floored inverses; header-only state = full state on all proof-of-work fields; ValidateHeader accepts the honest header and refuses each single defect (parent, median-1s, nonce factor, work) while accepting the median itself; SufficientlyHeavierThan asymmetric over sampled state pairs. Non-trivial = more than 50 headers applied; distinct = distinct event-log hashes.",
+		Assumptions:    []string{"proof of work is really performed, so runs stop when difficulty exceeds 4096", "targets of 2^255 and above saturate to the maximum target in the library (difficulty < 2); the clamp oracle accepts that saturation (DESIGN Appendix F)", "sampling, not enumeration"},
+		Components:     e1Components,
 		ExpectCounters: []string{"hdr.era.preoak", "hdr.era.oak", "hdr.era.v2", "hdr.era.finalcut", "probe.B3-wrong-parent", "probe.B3-timestamp-median-minus-1s", "probe.B3-timestamp-at-median", "probe.B3-nonce-factor", "probe.B3-insufficient-work", "hdr.heavier-pairs"},
 	},
 	"C01": {
-		Parts:       []part{e1("C01", 240, 6000)},
-		Rule:        "one case = one seeded run of a 2-4 node Sia network (swarm-drawn network parameters, eras, fault kinds, workload mix); after every applied and every reverted block at every node the reference ledger (math/big, fed by block contents) is compared with the store built from the library's diffs, and the supply equation, miner payout, siafund count and claim amounts are checked. Non-trivial = the run applied blocks with transactions and the oracle ran; distinct = distinct SHA-256 of the event log.",
-		Assumptions: e1Assumptions,
-		Components:  e1Components,
+		Parts:          []part{e1("C01", 240, 6000)},
+		Rule:           "one case = one seeded run of a 2-4 node Sia network (swarm-drawn network parameters, eras, fault kinds, workload mix); after every applied and every reverted block at every node the reference ledger (math/big, fed by block contents) is compared with the store built from the library's diffs, and the supply equation, miner payout, siafund count and claim amounts are checked. Non-trivial = the run applied blocks with transactions and the oracle ran; distinct = distinct SHA-256 of the event log.",
+		Assumptions:    e1Assumptions,
+		Components:     e1Components,
 		ExpectCounters: []string{"fault.drop", "fault.duplicate", "fault.partition", "reach.reorg", "workload.pay-v1", "workload.pay-v2", "workload.siafund-v1", "workload.siafund-v2", "workload.ephemeral-v2"},
 	},
 }
